@@ -9,7 +9,7 @@ dependency closures; empty-list refusal; undo+redo round trip.
 from __future__ import annotations
 
 from .. import gen, kernel
-from ..model import HistoryModel, ModelError, flat_ops, is_ignored_path
+from ..model import HistoryModel, ModelError, flat_ops, is_ignored_path, touched_paths
 from ..world import World, exec_history_step, gen_history_step
 from .base import Engine, Outcome
 
@@ -40,6 +40,7 @@ def gen_swarm(rng):
             "redo_sel": rng.choice([0, 2, 4]),
             "undo_empty": 1,
             "redo_empty": 1,
+            "set_limit": rng.choice([0, 0, 1]),
         },
     }
 
@@ -68,6 +69,8 @@ def gen_history_trace(rng, swarm=None):
         steps.append(st)
         if st["op"] == "do":
             model.do({"id": st["cs"]["id"], "desc": st["cs"]["desc"], "ops": st["cs"]["ops"]})
+        elif st["op"] == "set_limit":
+            model.limit = st["limit"]
         elif st["op"] in ("undo", "undo_drop") and model.undo:
             model.undo_sel(None, drop=st["op"] == "undo_drop")
         elif st["op"] == "undo_sel" and model.undo:
@@ -91,7 +94,12 @@ def check_invariant(out, world, model, i, st, sig_extra=None):
     mod_u = [r["desc"] for r in model.undo]
     mod_r = [r["desc"] for r in model.redo]
     ok = True
-    if len(real_u) > model.limit:
+    recorded_now = st["op"] in ("do", "refactor") and (
+        (st["op"] == "do" and real_u and real_u[-1] == st["cs"]["desc"]) or (st["op"] == "refactor" and real_u and real_u[-1] == "rf%d" % st["id"])
+        or model.limit == 0)
+    ignored_only = st["op"] == "do" and all(is_ignored_path(x) for x in touched_paths(st["cs"]["ops"]))
+    # the limit is enforced whenever a change is recorded
+    if len(real_u) > model.limit and recorded_now and not ignored_only:
         ok = False
         out.violate("limit_exceeded", sig, {"step": i, "limit": model.limit, "undo_list": real_u}, where=i)
     if real_u != mod_u or real_r != mod_r:
@@ -188,6 +196,13 @@ class HistoryEngine(Engine):
                             out.stats["probe_empty_refused"] += 1
                     else:
                         sig["has_remove"] = bool(res.info.get("has_remove"))
+                        if res.info.get("single") and res.info.get("unchanged") is False:
+                            out.violate(
+                                "failed_undo_left_changes", dict(sig),
+                                {"step": i, "st": _brief(st), "exc": repr(res.exc)[:200], "tree_diff": res.info.get("diff"),
+                                 "msg": "undo raised but tree or history changed"},
+                                where=i,
+                            )
                         out.violate(
                             "op_raised", sig,
                             {"step": i, "st": _brief(st), "exc": repr(res.exc)[:300], "msg": "a step valid in the model raised"},
